@@ -44,11 +44,11 @@ theorem takeWhile_run (p : Nat → Bool) (l R : Str) (hl : ∀ x ∈ l, p x = tr
     | nil => simp
     | cons x R' =>
       have := hR x (by simp)
-      simp [List.takeWhile, List.dropWhile, this]
+      simp [this]
   | cons a t ih =>
     have ha : p a = true := hl a (by simp)
     have := ih (fun x hx => hl x (by simp [hx]))
-    simp [List.takeWhile, List.dropWhile, ha, this.1, this.2]
+    simp [ha, this.1, this.2]
 
 /-! ### what a rendered well-formed piece starts with -/
 
@@ -149,5 +149,85 @@ theorem lex_int (f : Nat) (d R : Str) (ts : List Tok)
     have hq : ¬ (c = 39 ∨ c = 34) := by omega
     have hrun := takeWhile_run isIdCont t R (fun x hx => (digit_facts (hd.2 x hx)).2.2.2.2.2.2) hR
     simp [lexToks, h1, h2, h3, hq, h6, hd.1, hrun.1, hrun.2, h]
+
+/-! ### skeleton of the tokens of a piece list -/
+
+/-- with pairwise prefix-incomparable families, the family found for `p ++ i` is `p` -/
+theorem find_family (fams : List Str) (hpw : pairwiseB (fun p q => !comparable p q) fams = true)
+    (p i : Str) (hp : p ∈ fams) : fams.find? (fun q => q.isPrefixOf (p ++ i)) = some p := by
+  cases hf : fams.find? (fun q => q.isPrefixOf (p ++ i)) with
+  | none =>
+    have := List.find?_eq_none.mp hf p hp
+    simp [isPrefixOf_append_self] at this
+  | some q =>
+    have hq := List.mem_of_find?_eq_some hf
+    have hqp : q.isPrefixOf (p ++ i) = true := by
+      have := List.find?_some hf
+      simpa using this
+    by_cases hqe : q = p
+    · rw [hqe]
+    · exfalso
+      have hcmp : comparable q p = true := by
+        rw [List.isPrefixOf_iff_prefix] at hqp
+        obtain ⟨r, hr⟩ := hqp
+        exact append_eq_append_comparable hr
+      have := pairwiseB_spec (fun p q => !comparable p q)
+        (by intro x y; simp [comparable_comm]) fams hpw q hq p hp hqe
+      simp [hcmp] at this
+
+/-- the skeleton of the tokens of a piece list depends on the shape only -/
+theorem skel_pieces (fams : List Str) (hpw : pairwiseB (fun p q => !comparable p q) fams = true) :
+    ∀ (ps ps' : List Piece), sameShapeList ps ps' →
+      (∀ p i, Piece.gname p i ∈ ps → p ∈ fams) →
+      skeleton fams (ps.filterMap Piece.toTok) = skeleton fams (ps'.filterMap Piece.toTok) := by
+  intro ps
+  induction ps with
+  | nil =>
+    intro ps' h _
+    cases ps' with
+    | nil => rfl
+    | cons b t' => exact absurd h (by simp [sameShapeList])
+  | cons a t ih =>
+    intro ps' h hg
+    cases ps' with
+    | nil => exact absurd h (by simp [sameShapeList])
+    | cons b t' =>
+      obtain ⟨hab, ht⟩ := h
+      have iht := ih t' ht (fun p i hm => hg p i (List.mem_cons_of_mem _ hm))
+      cases a <;> cases b <;> simp only [sameShape] at hab
+      case op.op c c' => subst hab; simp [Piece.toTok, skeleton] at iht ⊢; exact iht
+      case sp.sp => simp [Piece.toTok, skeleton] at iht ⊢; exact iht
+      case nl.nl k k' => subst hab; simp [Piece.toTok, skeleton] at iht ⊢; exact iht
+      case word.word w w' => subst hab; simp [Piece.toTok, skeleton] at iht ⊢; exact iht
+      case gname.gname p i p' i' =>
+        subst hab
+        have hp : p ∈ fams := hg p i (by simp)
+        simp [Piece.toTok, skeleton, skelTok, find_family fams hpw p i hp, find_family fams hpw p i' hp] at iht ⊢
+        exact iht
+      case key.key k k' => simp [Piece.toTok, skeleton, skelTok] at iht ⊢; exact iht
+      case int.int d d' => subst hab; simp [Piece.toTok, skeleton] at iht ⊢; exact iht
+      case comment.comment x x' => simp [Piece.toTok, skeleton, skelTok] at iht ⊢; exact iht
+
+theorem sameShapeList_gname : ∀ (ps ps' : List Piece), sameShapeList ps ps' →
+    ∀ p i', Piece.gname p i' ∈ ps' → ∃ i, Piece.gname p i ∈ ps := by
+  intro ps
+  induction ps with
+  | nil =>
+    intro ps' h p i' hm
+    cases ps' with
+    | nil => cases hm
+    | cons b t' => exact absurd h (by simp [sameShapeList])
+  | cons a t ih =>
+    intro ps' h p i' hm
+    cases ps' with
+    | nil => cases hm
+    | cons b t' =>
+      obtain ⟨hab, ht⟩ := h
+      rcases List.mem_cons.mp hm with hm | hm
+      · subst hm
+        cases a <;> simp only [sameShape] at hab
+        case gname q i => subst hab; exact ⟨i, by simp⟩
+      · obtain ⟨i, hi⟩ := ih t' ht p i' hm
+        exact ⟨i, List.mem_cons_of_mem _ hi⟩
 
 end Adaptix.Gen
